@@ -73,6 +73,12 @@ chk("C18",
     "stateless model checking of the real Walk under a controlled environment: exhaustive enumeration of callback policies (prune sets, abort points, nil-ness, child views) over all bounded trees; reference-model trace comparison",
     "DESIGN.md section 6, C18")
 
+chk("C14",
+    "Every CR-free bounded input x is parsed and rendered as x, crlf(x), cr(x) under all three soft-break modes (equal after mapping the variant's line-ending spelling to LF), with five blank prefixes (full dump equal, offsets and lines shifted by exactly the prefix), and with a final LF appended when missing (safe-mode HTML equal modulo insignificant whitespace).",
+    COMMON_NOTE,
+    "stateless explicit enumeration of all bounded inputs x {CRLF, CR, 5 paddings, +final newline} transformations; metamorphic equality oracle on the real parser and renderer",
+    "DESIGN.md section 6, C14")
+
 # Reasons for properties not (yet) claimed.
 PENDING = {}
 
